@@ -19,6 +19,7 @@ import (
 	"strings"
 
 	"github.com/ryogrid/SamehadaDB/lib/samehada"
+	"github.com/ryogrid/SamehadaDB/lib/storage/access"
 	"github.com/ryogrid/SamehadaDB/lib/storage/disk"
 	"github.com/ryogrid/SamehadaDB/lib/types"
 )
@@ -57,6 +58,17 @@ func (r *Recorder) GCLogFile() error {
 		r.Events = append(r.Events, IOEvent{Kind: 'G'})
 	}
 	return r.DiskManager.GCLogFile()
+}
+
+// TruncateLog is not part of the DiskManager interface; recovery finds it by type assertion.
+func (r *Recorder) TruncateLog(size int64) error {
+	if r.On {
+		r.Events = append(r.Events, IOEvent{Kind: 'T', Page: int32(size)})
+	}
+	if t, ok := r.DiskManager.(interface{ TruncateLog(int64) error }); ok {
+		return t.TruncateLog(size)
+	}
+	return nil
 }
 
 func (r *Recorder) Mark(m string) {
@@ -149,6 +161,10 @@ func (im *Image) apply(ev *IOEvent, cut int) {
 		im.Log = append(im.Log, data...)
 	case 'G':
 		im.Log = im.Log[:0]
+	case 'T':
+		if int(ev.Page) < len(im.Log) {
+			im.Log = im.Log[:ev.Page]
+		}
 	}
 }
 
@@ -254,6 +270,9 @@ type HistoryRun struct {
 	Kinds     map[string]bool // kinds of operations in the history (for signatures)
 	MemKB     int
 	dir       string
+	TxnIDs     map[int]int32    // harness transaction number -> engine transaction id
+	HeapPages  map[int32]bool   // pages of user-table heaps (walked through GetNextPageID at the end of the run)
+	Writers    map[int]bool     // transactions that wrote something
 	TxnWrites  map[int][]string // txn -> row images (table|rowkey) it wrote, for classification
 	TxnTouched map[int][]string // txn -> committed row images it updated or deleted
 	Committed  map[int]bool
@@ -268,7 +287,7 @@ func stmtKindTag(s *Stmt) string {
 
 // RunHistory executes ops on a fresh database built from seed.
 func RunHistory(seed *CrashSeed, ops []HOp) *HistoryRun {
-	hr := &HistoryRun{Seed: seed, Ops: ops, Kinds: map[string]bool{}, MemKB: seed.MemKB, TxnWrites: map[int][]string{}, TxnTouched: map[int][]string{}, Committed: map[int]bool{}}
+	hr := &HistoryRun{Seed: seed, Ops: ops, Kinds: map[string]bool{}, MemKB: seed.MemKB, TxnIDs: map[int]int32{}, HeapPages: map[int32]bool{}, Writers: map[int]bool{}, TxnWrites: map[int][]string{}, TxnTouched: map[int][]string{}, Committed: map[int]bool{}}
 	hr.dir = NewDir("crash")
 	path := hr.dir + "/d"
 	db, rec, f := OpenRecorded(path, seed.MemKB, false)
@@ -306,6 +325,7 @@ func RunHistory(seed *CrashSeed, ops []HOp) *HistoryRun {
 		switch op.Kind {
 		case "begin":
 			txns[op.Txn] = db.Begin()
+			hr.TxnIDs[op.Txn] = int32(txns[op.Txn].T.GetTransactionID())
 			hr.Executed = append(hr.Executed, op.String())
 		case "checkpoint":
 			hr.Kinds["checkpoint"] = true
@@ -340,6 +360,9 @@ func RunHistory(seed *CrashSeed, ops []HOp) *HistoryRun {
 				continue
 			}
 			hr.Kinds[stmtKindTag(op.Stmt)] = true
+			if len(t.T.GetWriteSet()) > 0 {
+				hr.Writers[op.Txn] = true
+			}
 			before := pendingImages(model, op.Txn)
 			eff := model.Apply(op.Txn, op.Stmt)
 			if eff.Conflict {
@@ -383,6 +406,24 @@ func RunHistory(seed *CrashSeed, ops []HOp) *HistoryRun {
 done:
 	rec.On = false
 	hr.Events = rec.Events
+	guard(func() {
+		for _, tm := range db.Cat().GetAllTables() {
+			if *tm.GetTableName() == "columns_catalog" {
+				continue
+			}
+			pid := tm.Table().GetFirstPageID()
+			for n := 0; pid.IsValid() && n < 256; n++ {
+				hr.HeapPages[int32(pid)] = true
+				pg := db.BPM().FetchPage(pid)
+				if pg == nil {
+					break
+				}
+				next := access.CastPageAsTablePage(pg).GetNextPageID()
+				db.BPM().UnpinPage(pid, false)
+				pid = next
+			}
+		}
+	})
 	db.Kill()
 	hr.Final = readImage(path)
 	return hr
@@ -616,7 +657,7 @@ func (hr *HistoryRun) Class(p CrashPoint) string {
 	} else if p.N > 0 {
 		for i := p.N - 1; i >= 0; i-- {
 			if hr.Events[i].Kind != 'M' {
-				last = map[byte]string{'P': "page-write", 'L': "log-write", 'G': "log-truncate"}[hr.Events[i].Kind]
+				last = map[byte]string{'P': "page-write", 'L': "log-write", 'G': "log-truncate", 'T': "log-tail-cut"}[hr.Events[i].Kind]
 				break
 			}
 		}
